@@ -85,6 +85,13 @@ Lemma sta_fields_in_ruler_l :
   fields_in_ruler ruler_sta1 L_sta1 = true /\ fields_in_ruler ruler_sta2 L_sta2 = true /\ fields_in_ruler ruler_sta3 L_sta3 = true.
 Proof. vm_compute. repeat split; reflexivity. Qed.
 
+(* the same for the sinex_tms blocks that carry a column header line ("*INDEX TYPE_________ STATION__ ..."): every field of
+   SOLUTION/ESTIMATE (both row forms), TIMESERIES/REF_COORDINATE and TIMESERIES/COLUMNS lies under its header word *)
+Lemma tms_fields_under_headers_l :
+  fields_in_ruler hdr_tms_est L_tms_est = true /\ fields_in_ruler hdr_tms_est L_tms_est1 = true /\
+  fields_in_ruler hdr_tms_refcoord L_tms_refcoord = true /\ fields_in_ruler hdr_tms_columns L_tms_columns = true.
+Proof. vm_compute. repeat split; reflexivity. Qed.
+
 (* ============================================================================================= round trips
    The column maps above, fed into the generic theorem (Proofs/C17_Sound.v): for EVERY record whose values fit, the
    matching parser's columns of the written line are exactly the stripped formatted values of the stated fields. *)
